@@ -6,7 +6,7 @@ import json, os, sys, time
 plan = json.load(open(os.environ['VERIF_CHILD_PLAN']))
 st = os.fstat(1)
 with open(plan['report'], 'w') as f:
-    json.dump({'argv': sys.argv[1:], 'WAYLAND_DEBUG': os.environ.get('WAYLAND_DEBUG'),
+    json.dump({'argv': sys.argv[1:], 'argv0': getattr(sys, 'orig_argv', [None])[0], 'script': sys.argv[0], 'WAYLAND_DEBUG': os.environ.get('WAYLAND_DEBUG'),
                'LD_LIBRARY_PATH': os.environ.get('LD_LIBRARY_PATH'), 'stdout': [st.st_dev, st.st_ino]}, f)
 if plan.get('stdout_text'):
     os.write(1, plan['stdout_text'].encode())
